@@ -91,6 +91,12 @@ def run(ctx: Ctx):
             ctx.fail(clause, case, ev[idx].get("parts"), None)
     ctx.assumptions += ["a bare CR is not a line break for RFC 5545 framing nor for this parser",
                         "folding is exact (C06)", "structure = component names, property names, parameter names"]
+    # ------------------------------------------------------------- SUITE: calls observed in the repository's own tests
+    from vf import suite
+    suite.step(ctx, "join", ["P:C05"])
+    # ------------------------------------------------------------- FRESH: history independence of returned objects (spec/Fresh.tla)
+    from vf import fresh
+    fresh.step(ctx, "C05")
     return ctx.finish(rule=(
         "parameter value (<=2) x value text (<=2/3) and value text alone (<=4/5) over {a ; : , \" \\ % 2 C = CR LF SP}, "
         "TEXT and raw value kinds, at Contentline, Event (lenient) and Todo (strict) level; random Unicode cases; hostile "
